@@ -507,6 +507,38 @@ def eval_gated(body, pt, local, use_bb, leaf, use_idx=None, on_def=None):
     return eval_term(t, leaf2)
 
 
+def reached_under(body, pt, start, leaf, stops, avoid=()):
+    """Blocks of `stops` reachable from `start` when every two- or multi-way test whose operand can be evaluated under the
+    valuation `leaf` takes its evaluated edge, the `?` tests take their success edge, and all other tests take both.
+    The walk does not continue past a stop block nor into `avoid`."""
+    c = pt.c
+    seen, out = set(), set()
+    work = [start]
+    while work:
+        x = work.pop()
+        if x in seen or x in avoid:
+            continue
+        seen.add(x)
+        if x in stops:
+            out.add(x)
+            continue
+        blk = body.blocks[x]
+        t = blk.term
+        if t.k == "switch":
+            tt = pt.at(x, None).of_operand(t.discr)
+            nxt = None
+            try:
+                v = int(eval_cmp(tt, leaf)) if cmp_sides(tt) else eval_term(tt, leaf)
+                nxt = [tg for val, tg in t.targets if val == v] or [t.otherwise]
+            except (NotEvaluable, Overflow):
+                if isinstance(tt, tuple) and tt and tt[0] == "discr" and isinstance(tt[1], tuple) and tt[1] and tt[1][0] == "try":
+                    nxt = [tg for val, tg in t.targets if val == 0] or [t.otherwise]
+            work.extend(nxt if nxt is not None else c.succ[x])
+        else:
+            work.extend(c.succ[x])
+    return out
+
+
 def chunk_loop_body(facts):
     """The body that holds the LZMA2 chunk loop: the one calling both chunk parsers (found by what it calls, not by name)."""
     for b in facts.bodies:
